@@ -222,7 +222,7 @@ class Spec:
 
 def run(ctx):
     thorough = ctx.tier == "thorough"
-    depth = 5 if thorough else 3
+    depth = 4 if thorough else 3  # (a level is never cut short by the time budget, and a fifth level over this alphabet of ~130 operations takes hours)
     for store in ("Memory", "SimpleMemory"):
         for initial in ("none", "core"):
             if not thorough and (store, initial) == ("SimpleMemory", "core"):
